@@ -7,4 +7,4 @@ REPO="${VERIF_REPO:-/repo}"
 if [ ! -x bin/dsv ] || [ -n "$(find cmd internal go.mod -newer bin/dsv -print -quit 2>/dev/null)" ]; then
   ./setup.sh || exit 2
 fi
-exec bin/dsv -property "$1" -tier "${2:-quick}" -repo "$REPO" -verif "$(pwd)"
+exec bin/dsv -property "$1" -tier "${2:-quick}" -repo "$REPO" -verif "$(pwd)" ${VERIF_OUT:+-out "$VERIF_OUT"}
